@@ -1022,9 +1022,12 @@ class OpsStream(Stream):
             seen.add(key)
             return self.mk(init, ops, all_)
 
-        plan = [(self.FULL, 2, self.inits), (self.CORE, 3, self.inits[:3])]
-        if tier == "thorough":
-            plan += [(self.FULL, 3, self.inits[:2]), (self.SMALL, 4, self.inits[:2]), (self.TINY, 5, self.inits[:1])]
+        if tier == "quick":
+            plan = [(self.FULL, 1, self.inits), (self.FULL, 2, self.inits[:2]), (self.CORE, 3, self.inits[:2])]
+        else:
+            plan = [(self.FULL, 2, self.inits), (self.CORE, 3, self.inits), (self.SMALL, 4, self.inits[:2]), (self.TINY, 5, self.inits[:2])]
+            if len(self.FULL) ** 3 <= 100000:
+                plan.append((self.FULL, 3, self.inits[:1]))
         for alphabet, n, inits in plan:
             for init in inits:
                 for ops in histories(alphabet, n):
@@ -1332,7 +1335,7 @@ class HeaderSetStream(OpsStream):
         + [["delitem", i] for i in (0, -1, 1, 5)]
         + [["setitem", i, v] for i in (0, -1, 3) for v in ("a", "B", "n")]
     )
-    CORE = FULL
+    CORE = [["add", "a"], ["add", "A"], ["add", "b"], ["remove", "A"], ["remove", "b"], ["remove", "zz"], ["discard", "a"], ["discard", "B"], ["update", ["A", "b"]], ["update", ["c", "C", "a"]], ["clear"], ["delitem", 0], ["delitem", -1], ["delitem", 5], ["setitem", 0, "B"], ["setitem", -1, "a"], ["setitem", 0, "n"], ["setitem", 3, "n"]]
     SMALL = [["add", "a"], ["add", "A"], ["add", "b"], ["remove", "A"], ["remove", "b"], ["discard", "a"], ["update", ["A", "b"]], ["clear"], ["delitem", 0], ["delitem", -1], ["setitem", 0, "B"], ["setitem", -1, "a"], ["setitem", 0, "n"]]
     TINY = [["add", "a"], ["add", "B"], ["remove", "A"], ["discard", "b"], ["update", ["A", "b"]], ["delitem", 0], ["setitem", 0, "B"], ["setitem", -1, "n"], ["clear"]]
     corpus = [
@@ -1852,20 +1855,22 @@ class ImmutablePlainStream(Stream):
 
 class ProbeStream(Stream):
     """copy / deepcopy / pickle / eq / hash consistency and copy independence (runtime behaviour:
-    oracle only)."""
+    oracle only). One aspect per case."""
 
     name = "probes"
     KINDS = ["MultiDict", "ImmutableMultiDict", "Headers", "HeaderSet", "ImmutableDict", "ImmutableTypeConversionDict", "ImmutableList", "CombinedMultiDict", "FileMultiDict", "TypeConversionDict"]
+    ASPECTS = ["copy.copy", "copy()", "deepcopy", "pickle2", "pickle5", "eq"]
 
     def cases(self, rng, tier):
-        n = 300 if tier == "quick" else 5000
+        n = 600 if tier == "quick" else 8000
         for kind in self.KINDS:
-            yield {"kind": kind, "pairs": []}
-            yield {"kind": kind, "pairs": [["a", "1"], ["b", "x"], ["a", "2"]]}
+            for asp in self.ASPECTS:
+                yield {"kind": kind, "aspect": asp, "pairs": []}
+                yield {"kind": kind, "aspect": asp, "pairs": [["a", "1"], ["b", "x"], ["a", "2"]]}
         for _ in range(n):
             kind = rng.choice(self.KINDS)
             pairs = [[rng.choice(["a", "b", "A", "c"]), rng.choice(["1", "2", "x"])] for _ in range(rng.randrange(0, 5))]
-            yield {"kind": kind, "pairs": pairs, "mut": rng.randrange(4)}
+            yield {"kind": kind, "aspect": rng.choice(self.ASPECTS), "pairs": pairs}
 
     @staticmethod
     def build(ds, kind, pairs):
@@ -1889,17 +1894,41 @@ class ProbeStream(Stream):
             return ds.CombinedMultiDict([ds.MultiDict(pairs[:2]), ds.MultiDict(pairs[2:])])
         raise AssertionError(kind)
 
-    @staticmethod
-    def content(kind, x):
-        if kind in ("MultiDict", "ImmutableMultiDict", "FileMultiDict", "CombinedMultiDict"):
-            return [(k, list(v)) for k, v in x.lists()]
-        if kind == "Headers":
+    srt = False
+
+    def content(self, x):
+        import werkzeug.datastructures as ds
+
+        if isinstance(x, ds.MultiDict):
+            return sorted((k, list(v)) for k, v in x.lists()) if self.srt else [(k, list(v)) for k, v in x.lists()]
+        if isinstance(x, ds.Headers):
             return list(x)
-        if kind == "HeaderSet":
+        if isinstance(x, ds.HeaderSet):
             return (list(x), sorted(x.as_set()), len(x))
-        if kind == "ImmutableList":
+        if isinstance(x, list):
             return list(x)
         return list(x.items())
+
+    @staticmethod
+    def poke(ds, c):
+        """mutate a (mutable) copy through its public API"""
+        if isinstance(c, ds.HeaderSet):
+            c.add("zz-new")
+            c.discard("a")
+        elif isinstance(c, ds.Headers):
+            c.add("zz", "new")
+            c.remove("a")
+        elif isinstance(c, ds.CombinedMultiDict):
+            if c.dicts:
+                c.dicts[0].add("zz", "new")
+        elif isinstance(c, ds.MultiDict):
+            c.add("zz", "new")
+            c.add("a", "more")
+            c.setlistdefault("b").append("tail")
+        elif isinstance(c, dict):
+            c["zz"] = "new"
+        elif isinstance(c, list):
+            c.append("new")
 
     def real(self, case):
         import copy
@@ -1907,84 +1936,89 @@ class ProbeStream(Stream):
 
         import werkzeug.datastructures as ds
 
-        kind = case["kind"]
+        kind, asp = case["kind"], case["aspect"]
         x = self.build(ds, kind, case["pairs"])
-        before = self.content(kind, x)
-        out = []
+        self.srt = kind == "CombinedMultiDict"
+        before = self.content(x)
         immutable = kind.startswith("Immutable")
-        # copies
-        cps = {"copy.copy": copy.copy(x), "deepcopy": copy.deepcopy(x)}
-        if hasattr(x, "copy"):
-            cps["copy()"] = x.copy()
-        for proto in (2, pickle.HIGHEST_PROTOCOL):
-            if kind != "HeaderSet" or True:
-                cps[f"pickle{proto}"] = pickle.loads(pickle.dumps(x, proto))
-        for name, c in cps.items():
-            ckind = kind
-            if name == "copy()" and kind in ("ImmutableMultiDict", "CombinedMultiDict"):
-                ckind = "MultiDict"
-            if name == "copy()" and kind in ("ImmutableDict", "ImmutableTypeConversionDict"):
-                ckind = "TypeConversionDict"
-            if self.content(ckind, c) != before and not (kind == "CombinedMultiDict" and name == "copy()" and sorted(self.content(ckind, c)) == sorted(before)):
-                out.append(f"{name}: content differs")
-            if name != "copy()" and type(c) is not type(x):
-                out.append(f"{name}: type {type(c).__name__}")
-            # equality of the copy with the original where the class defines value equality
-            if kind not in ("HeaderSet", "CombinedMultiDict") and name != "copy()" and not (c == x):
-                out.append(f"{name}: copy != original")
-            if immutable and name != "copy()":
-                if hash(c) != hash(x):
-                    out.append(f"{name}: hash differs")
-        # independence: mutate every mutable copy, the original must not move
-        for name, c in cps.items():
-            if c is x:
-                if not immutable:
-                    out.append(f"{name}: returned the same mutable object")
-                continue
+        out = []
+        if asp == "eq":
+            y = self.build(ds, kind, case["pairs"])
+            z = self.build(ds, kind, case["pairs"] + [["q", "9"]])
+            if kind != "HeaderSet":
+                if not (x == y) or (x != y):
+                    out.append("objects built from equal input compare unequal")
+                if x == z or not (x != z):
+                    out.append("objects with different content compare equal")
             try:
-                if isinstance(c, ds.HeaderSet):
-                    c.add("zz-new")
-                    c.discard("a")
-                elif isinstance(c, ds.Headers):
-                    c.add("zz", "new")
-                    c.remove("a")
-                elif isinstance(c, ds.MultiDict) and not isinstance(c, (ds.ImmutableMultiDict, ds.CombinedMultiDict)):
-                    c.add("zz", "new")
-                    c.add("a", "more")
-                    c.setlistdefault("b").append("tail")
-                elif isinstance(c, dict) and not immutable and not isinstance(c, ds.CombinedMultiDict):
-                    c["zz"] = "new"
-                elif isinstance(c, ds.CombinedMultiDict) and c.dicts:
-                    c.dicts[0].add("zz", "new")
-                    if name in ("deepcopy", "pickle2", f"pickle{pickle.HIGHEST_PROTOCOL}") and self.content(kind, x) != before:
-                        out.append(f"{name}: shares wrapped dicts with the original")
-                    c.dicts[0].poplist("zz")
-                    continue
+                hx = hash(x)
+            except TypeError:
+                hx = None
+            if immutable or kind == "CombinedMultiDict":
+                if hx is None:
+                    out.append("immutable container is not hashable")
+                else:
+                    if hash(y) != hx:
+                        out.append("equal objects hash differently")
+                    if x == z and hash(z) != hx:
+                        out.append("objects that compare equal hash differently")
+            elif hx is not None and kind != "HeaderSet":
+                out.append("mutable container is hashable")
+            return ";".join(out) if out else "ok"
+        if asp == "copy.copy":
+            c = copy.copy(x)
+        elif asp == "copy()":
+            if not hasattr(x, "copy"):
+                return "ok"
+            c = x.copy()
+        elif asp == "deepcopy":
+            c = copy.deepcopy(x)
+        else:
+            c = pickle.loads(pickle.dumps(x, int(asp[6:])))
+        documented_mutable_copy = asp in ("copy()", "copy.copy") and kind in ("ImmutableMultiDict", "CombinedMultiDict", "ImmutableDict", "ImmutableTypeConversionDict")
+        try:
+            if self.content(c) != before:
+                out.append("copy has different content")
+        except Exception as e:  # noqa: BLE001
+            out.append(f"reading the copy raises {type(e).__name__}")
+            return ";".join(out)
+        if type(c) is not type(x) and not documented_mutable_copy and not (asp == "copy()" and kind in ("ImmutableList", "TypeConversionDict")):
+            out.append(f"copy has type {type(c).__name__}")
+        if type(c) is type(x) and kind not in ("HeaderSet", "CombinedMultiDict") and not (c == x):
+            out.append("copy != original")
+        if immutable and type(c) is type(x) and hash(c) != hash(x):
+            out.append("copy hashes differently")
+        if c is x:
+            if not immutable:
+                out.append("copy is the same mutable object")
+        else:
+            try:
+                self.poke(ds, c)
             except TypeError:
                 pass
-            if self.content(kind, x) != before:
-                out.append(f"{name}: mutating the copy changed the original")
-        # eq / hash
-        y = self.build(ds, kind, case["pairs"])
-        if kind not in ("HeaderSet", "CombinedMultiDict"):
-            if not (x == y) or (x != y):
-                out.append("equal construction compares unequal")
-            if immutable and hash(x) != hash(y):
-                out.append("equal objects hash differently")
-        if not immutable and kind != "CombinedMultiDict":
-            try:
-                hash(x)
-                if kind not in ("HeaderSet",):
-                    out.append("mutable container is hashable")
-            except TypeError:
-                pass
+            if self.content(x) != before:
+                out.append("mutating the copy changed the original")
         return ";".join(out) if out else "ok"
 
     def oracle(self, case, real_out):
-        return None if real_out == "ok" else real_out
+        if real_out == "ok":
+            return None
+        kind, asp = case["kind"], case["aspect"]
+        pre = ""
+        if kind == "HeaderSet" and asp == "copy.copy" and real_out == "mutating the copy changed the original":
+            pre = "F08g: "
+        if kind == "CombinedMultiDict" and asp == "deepcopy" and "copy" in real_out:
+            pre = "F08h: "
+        if kind == "CombinedMultiDict" and asp == "eq" and ("compare equal" in real_out):
+            pre = "F08i: "
+        return pre + f"{kind} {asp}: {real_out}"
+
+    def finding_key(self, case, what):
+        m = re.match(r"(F08[a-z]): ", what)
+        return m.group(1) if m else None
 
     def bucket(self, case, real_out):
-        return case["kind"]
+        return case["kind"] + "/" + case["aspect"]
 
 
 CHECK = Check(
